@@ -130,6 +130,13 @@ class ProgGen:
         return s
 
 
+def round_spec(spec, k):
+    """a program of pseudo-kind 'rounds' evaluates its k-th child in the k-th execution on the backend"""
+    if spec[1] == "rounds":
+        return spec[3][min(k, len(spec[3]) - 1)]
+    return spec
+
+
 def subrun_nodes(spec):
     out = []
     if spec[1] == "subrun":
@@ -171,6 +178,13 @@ SCENARIOS = [
     ("ctx-override-extend", ("r", "list", 0, (_S("Se", _CTXLEAF, False),), {"context": {"k": 2, "j": 3}}), [True], {"k": 7}),
     ("ctx-override-on-subrun-node", ("Sn", "subrun", (("new_execution", True), ("executor", "default")), (_CTXLEAF,), {"context": {"k": 1}}), [True], {"k": 7}),
     ("ctx-config-only", ("r", "list", 0, (_S("Sn", _CTXLEAF, True), _S("Se", _CTXLEAF, False)), {"context": {"j": 4}}), [True], {"k": 7}),
+    # the SAME expression through subrun first in a new execution, then extending the current one: the second must start
+    # its own sub-scheduler and record the sub-workflow's jobs under its _subrun_root_task job --
+    # (a) in two executions on one backend, (b) in one execution, sequenced, (c) in one execution, pending together
+    ("new-then-extend-two-executions", ("R", "rounds", 0, (_S("Sn", _LEAVES, True), _S("Se", _LEAVES, False)), None), [True, True]),
+    ("new-then-extend-sequenced", ("q", "seq", 0, (_S("Sn", _LEAVES, True), _S("Se", _LEAVES, False)), None), [True]),
+    ("new-and-extend-pending-together", ("p", "list", 0, (_S("Sn", _LEAVES, True), _S("Se", _LEAVES, False)), None), [True]),
+    ("extend-then-new-sequenced", ("q", "seq", 0, (_S("Se", _LEAVES, False), _S("Sn", _LEAVES, True)), None), [True, True]),
     ("error-new-twins", ("q", "seq", 0, (("c1", "catch", 0, (_S("Sa", _BOOM, True),), None), ("c2", "catch", 0, (_S("Sb", _BOOM, True),), None)), None), [True, True]),
 ]
 
@@ -264,8 +278,8 @@ def child_main():
     job = json.loads(sys.stdin.read())
     spec = eval(job["spec"])
     outs = []
-    for cache in job["caches"]:
-        out, s = run_expr(job["db"], lambda: vm_c38.call38(spec), cache=cache, context=job.get("context"), cfgctx=job.get("cfgctx"))
+    for k, cache in enumerate(job["caches"]):
+        out, s = run_expr(job["db"], lambda: vm_c38.call38(round_spec(spec, k + job.get("first_round", 0))), cache=cache, context=job.get("context"), cfgctx=job.get("cfgctx"))
         if "result" in out:
             out["result"] = norm(out["result"])
         outs.append(out)
@@ -284,6 +298,33 @@ def db_rows(db):
     finally:
         con.close()
     return rows, execs
+
+
+def extend_invariant(db, root_jobs):
+    """An extend-mode subrun records the sub-workflow's jobs under a calling _subrun_root_task job: the call node such a
+    job resolves to (run by itself, or replayed by CSE / ultimate reduction / collapse) must have been produced by a
+    _subrun_root_task job that has child jobs in its execution.  root_jobs: [(job id, new_execution)] seen at
+    record_job_start.  Returns a list of problems."""
+    import sqlite3
+    con = sqlite3.connect(db)
+    try:
+        call = {r[0]: r[1] for r in con.execute("select id, call_hash from job")}
+        has_kids = {r[0] for r in con.execute("select distinct parent_id from job where parent_id is not null")}
+    finally:
+        con.close()
+    producers = {}
+    for jid, ch in call.items():
+        if ch is not None:
+            producers.setdefault(ch, []).append(jid)
+    bad = []
+    for jid, ne in root_jobs:
+        if ne or call.get(jid) is None:
+            continue
+        if not any(p in has_kids for p in producers[call[jid]]):
+            bad.append(f"extend-mode _subrun_root_task job {jid[:8]} resolved to call node {call[jid][:8]}, which no job produced by "
+                       f"extending an execution: none of the {len(producers[call[jid]])} job(s) with that call node has child jobs, "
+                       f"so the sub-workflow's jobs are not recorded under a calling job")
+    return bad
 
 
 def row_invariants(db, spec, rounds):
@@ -329,9 +370,19 @@ class Probe:
         self.tl = threading.local()
         self.cache_calls = []
         self.job_starts = []      # (backend id, job id, parent id, execution id, task)
+        self.root_jobs = []       # (job id, new_execution argument) of every _subrun_root_task job recorded
         self.sub_runs = []        # dict(mode, backend, caller, job_id / execution)
-        self.lock = threading.Lock()
+        self.lock = threading.RLock()
         self.saved = []
+
+    def token(self, backend):
+        """a name for a backend object that is never reused (id() of a collected object can be)"""
+        t = getattr(backend, "_rv_c38_token", None)
+        if t is None:
+            with self.lock:
+                self.ntok = getattr(self, "ntok", 0) + 1
+                t = backend._rv_c38_token = self.ntok
+        return t
 
     def patch(self, cls, name, wrapper_factory):
         orig = cls.__dict__[name]
@@ -394,8 +445,13 @@ class Probe:
             def record_job_start(self, job, *a, **kw):
                 r = orig(self, job, *a, **kw)
                 with P.lock:
-                    P.job_starts.append((id(self), job.id, job.parent_job.id if job.parent_job else None,
+                    P.job_starts.append((P.token(self), job.id, job.parent_job.id if job.parent_job else None,
                                          job.execution.id, job.task.fullname))
+                    if job.task.fullname == ROOT_TASK:
+                        try:
+                            P.root_jobs.append((job.id, bool(job.expr.kwargs.get("new_execution", False))))
+                        except Exception:  # noqa
+                            pass
                 return r
             return record_job_start
 
@@ -403,7 +459,7 @@ class Probe:
             def extend_run(self, expr, parent_job_id, *a, **kw):
                 r = orig(self, expr, parent_job_id, *a, **kw)
                 with P.lock:
-                    P.sub_runs.append({"mode": "extend", "backend": id(self.backend), "caller": parent_job_id,
+                    P.sub_runs.append({"mode": "extend", "backend": P.token(self.backend), "caller": parent_job_id,
                                        "job_id": r.get("job_id") if isinstance(r, dict) else None,
                                        "keys": sorted(r) if isinstance(r, dict) else None})
                 return r
@@ -416,7 +472,7 @@ class Probe:
                 finally:
                     if threading.current_thread() is not threading.main_thread():
                         with P.lock:
-                            P.sub_runs.append({"mode": "new", "backend": id(self.backend), "caller": None})
+                            P.sub_runs.append({"mode": "new", "backend": P.token(self.backend), "caller": None})
             return run
 
         self.patch(Scheduler, "_get_cache", w_get_cache)
@@ -456,7 +512,7 @@ class Check(PropertyCheck):
     module = "Props.C38"
     theorems = ["C38_subrun_no_single_reduction", "C38_no_single_when_excluded", "C38_ultimate_only_when_shallow_backend",
                 "C38_check_cache_closed_form", "C38_get_cache_total", "C38_subrun_eq_direct", "C38_replayed_dict_eq_direct",
-                "C38_then_never_silent", "C38_forwarded_context_is_callers", "C38_extend_jobs_same_execution", "C38_extend_jobs_under_caller",
+                "C38_then_never_silent", "C38_forwarded_context_is_callers", "C38_root_key_separates_modes", "C38_extend_jobs_same_execution", "C38_extend_jobs_under_caller",
                 "C38_extend_root_is_child_of_caller", "C38_new_execution_jobs_detached", "C38_nonvacuous"]
     allowed_axioms = []
     assumptions = [
@@ -854,9 +910,10 @@ class Check(PropertyCheck):
                     cfgctx = {"k": 7} if (reads_ctx and i % 2 == 0) or i % 7 == 3 else None
                     caches = [True] + ([self.rng.random() < 0.5, True] if i % 2 == 0 else [])
                 self.stat("config-level context", "defines k" if cfgctx else "none")
-                exp = expected(spec, base_ctx(cfgctx, ctx))
-                rec = {"spec": spec, "context": ctx, "cfgctx": cfgctx, "caches": caches, "proc": proc, "exp": exp, "outs": [],
-                       "rows_bad": [], "direct": None}
+                exps = [expected(round_spec(spec, k), base_ctx(cfgctx, ctx)) for k in range(len(caches))]
+                exp = exps[0]
+                rec = {"spec": spec, "context": ctx, "cfgctx": cfgctx, "caches": caches, "proc": proc, "exp": exp, "exps": exps,
+                       "outs": [], "rows_bad": [], "direct": None}
                 for attempt in range(3):
                     db = tmp / f"p{i}_{attempt}.db"
                     rec["outs"] = []
@@ -873,8 +930,8 @@ class Check(PropertyCheck):
                             rec["child_failed"] = r.get("child_failed")
                     else:
                         with Probe() as P:
-                            for cache in caches:
-                                out, s = run_expr(db, lambda: vm_c38.call38(spec), cache=cache, context=ctx, cfgctx=cfgctx)
+                            for k, cache in enumerate(caches):
+                                out, s = run_expr(db, lambda: vm_c38.call38(round_spec(spec, k)), cache=cache, context=ctx, cfgctx=cfgctx)
                                 rec["outs"].append(out)
                                 if is_infra(out):
                                     break
@@ -892,9 +949,12 @@ class Check(PropertyCheck):
                     self.opts_cases(P)
                 if db.exists() and len(rec["outs"]) == len(caches):
                     rec["rows_bad"] = row_invariants(str(db), spec, len(caches))
+                    if P is not None and not has_noprov(spec) and not any(is_infra(o) for o in rec["outs"]):
+                        rec["rows_bad"] += extend_invariant(str(db), P.root_jobs)
+                        self.stat("extend-mode root jobs checked", "count", sum(1 for _, ne in P.root_jobs if not ne))
                 # direct evaluation of the same program without subrun, fresh backend
                 if i % 2 == 0 and not proc:
-                    er = vm_c38.erase(spec)
+                    er = vm_c38.erase(round_spec(spec, 0))
                     rec["direct"], _ = run_expr(tmp / f"d{i}.db", lambda: vm_c38.calld(er), context=ctx, cfgctx=cfgctx)
                 self.runs.append(rec)
                 done_thread += 0 if proc else 1
@@ -1013,7 +1073,7 @@ class Check(PropertyCheck):
                 continue
             for k, out in enumerate(rec["outs"]):
                 self.evaluations += 1
-                if not agrees(out, rec["exp"]):
+                if not agrees(out, rec["exps"][k]):
                     if is_infra(out) and not is_lock(out):
                         # the insert race again, on each of three fresh backends (programs with many concurrent
                         # sub-schedulers recording the same calls hit it almost every time): same defect, same key
@@ -1024,7 +1084,7 @@ class Check(PropertyCheck):
                     pre = "sqlite-lock" if is_lock(out) else "result-differs"
                     self.findings.append(Finding(f"{pre}:{spec!r}"[:200],
                                                  f"run {k + 1} (cache={rec['caches'][k]}): got {out.get('result', out.get('error'))!r:.200}, "
-                                                 f"reference {show_exp(rec['exp']):.300}", rp))
+                                                 f"reference {show_exp(rec['exps'][k]):.300}", rp))
                     break
             d = rec.get("direct")
             if d is not None and rec["outs"] and not is_infra(rec["outs"][0]):
@@ -1079,28 +1139,40 @@ class Check(PropertyCheck):
             caches = r.get("caches") or [True]
             ctx = r.get("context")
             cfgctx = r.get("config_context")
-            exp = expected(spec, base_ctx(cfgctx, ctx))
+            exps = [expected(round_spec(spec, k), base_ctx(cfgctx, ctx)) for k in range(len(caches))]
             tmp = scratch_dir("rv_c38r_")
             try:
                 os.chdir(tmp)
+                clean = False
                 for attempt in range(3):
                     db = tmp / f"r{attempt}.db"
                     with Probe() as P:
                         outs = []
-                        for cache in caches:
+                        for k, cache in enumerate(caches):
                             if r.get("proc"):
-                                res = run_in_child({"spec": repr(spec), "caches": [cache], "context": ctx, "cfgctx": cfgctx, "db": str(db), "cwd": str(tmp)})
+                                res = run_in_child({"spec": repr(spec), "caches": [cache], "first_round": k, "context": ctx, "cfgctx": cfgctx, "db": str(db), "cwd": str(tmp)})
                                 out = res["outs"][0] if "outs" in res else {"error": ("NoOutcome", str(res)[:200])}
                                 if "error" in out:
                                     out["error"] = tuple(out["error"])
                             else:
-                                out, _ = run_expr(db, lambda: vm_c38.call38(spec), cache=cache, context=ctx, cfgctx=cfgctx)
+                                out, _ = run_expr(db, lambda: vm_c38.call38(round_spec(spec, k)), cache=cache, context=ctx, cfgctx=cfgctx)
                             outs.append(out)
+                    infra = [o for o in outs if is_infra(o)]
+                    if infra:
+                        # the shared sqlite file under concurrent schedulers (registered, time-dependent): try again
+                        print(f"replay: attempt {attempt + 1} hit {infra[0]['error'][0]} on the shared backend; running again")
+                        if is_lock(infra[0]) and attempt == 2:
+                            print("replay: the backend stayed locked on three fresh databases")
+                            return 1
+                        continue
+                    clean = True
                     for k, out in enumerate(outs):
-                        if not agrees(out, exp):
-                            print(f"replay: run {k + 1} (cache={caches[k]}) gives {out!r:.300}; the reference (direct evaluation) gives {show_exp(exp):.300}")
+                        if not agrees(out, exps[k]):
+                            print(f"replay: run {k + 1} (cache={caches[k]}) gives {out!r:.300}; the reference (direct evaluation) gives {show_exp(exps[k]):.300}")
                             return 1
                     bad = row_invariants(str(db), spec, len(caches)) if db.exists() else []
+                    if db.exists() and not r.get("proc") and not has_noprov(spec) and not any(is_infra(o) for o in outs):
+                        bad += extend_invariant(str(db), P.root_jobs)
                     if bad:
                         print("replay: Job rows:", bad[0])
                         return 1
@@ -1108,7 +1180,9 @@ class Check(PropertyCheck):
                         if c["eval_cache"] or any(chk["type"] == "SINGLE" or chk["allowed"] is None or "SINGLE" in chk["allowed"] for chk in c["checks"]):
                             print("replay: the _subrun_root_task job consulted / was allowed the single-reduction cache:", c["checks"])
                             return 1
-                print("replay: agrees with the reference now")
+                print("replay: agrees with the reference now" if clean else
+                      "replay: every attempt lost the insert race between the schedulers sharing the backend (the registered "
+                      "time-dependent finding); nothing else was observed")
                 return 0
             finally:
                 os.chdir("/")
